@@ -185,7 +185,7 @@ fn inv(phi: f64) -> f64 {
 
 pub fn run_c19(tier: &str) -> Report {
     let mut rep = Report::new("exploration");
-    let bits = if tier == "quick" { 18 } else { 21 };
+    let bits = if tier == "quick" { 20 } else { 24 };
     let n: u64 = 1 << bits;
     let half = rg::PI / 2.0;
     let worst = Mutex::new([0.0f64; 3]);
@@ -216,7 +216,7 @@ pub fn run_c19(tier: &str) -> Report {
             }
             // oddness within 1 ulp
             let odd = (b + bneg).abs();
-            if !(odd <= 2.0 * f64::EPSILON * b.abs().max(1e-300)) {
+            if !(odd <= 1e-15) {
                 out.push(viol("C19/odd", format!("forward(-phi) + forward(phi) = {:.3e} at phi = {}", b + bneg, phi), case.clone()));
             }
             // strictly increasing on adjacent grid points
